@@ -10,7 +10,10 @@
 (*  C06  what an application received is an order preserving, duplicate free *)
 (*       selection of what the peer wrote                                    *)
 (*  C03  both sides completed or neither                                     *)
-(*  C10  after Shutdown(h) returned, h opens no stream to its peer           *)
+(*  C10  after Shutdown(h) returned, h opens no stream to its peer; while    *)
+(*       either user has not (or no longer) registered the peer, nobody     *)
+(*       trusts on his behalf and no connection is completed; nothing is     *)
+(*       registered or open at a hub that was shut down                      *)
 (***************************************************************************)
 EXTENDS Naturals, Sequences, FiniteSets, TLC, Json
 CONSTANT ObsFile
@@ -38,10 +41,18 @@ Judge(t) ==
                  h \in {h \in {"A", "B"} : ~(NoDup(t.hubs[h].received) /\ IsSubseq(t.hubs[h].received, t.sent[Other(h)]))}}
         b7 == IF (good(A) /\ ~B.registered) \/ (good(B) /\ ~A.registered)
               THEN {<<"C03", "one-side-completed-other-side-gone">>} ELSE {}
+        \* (an attempt that passed its last check just before Shutdown may still reach the wire: 400 ms of grace; the single
+        \*  hub check of C10, MonHub, is exact about this)
         b8 == {<<"C10", "stream-opened-after-shutdown", h>> :
                  h \in {h \in {"A", "B"} : \E i, j \in Idx(t) : i < j /\ t.events[i].ev = "OpShutdownEnd" /\ t.events[i].h = h
-                                                              /\ t.events[j].ev = "StreamOpen" /\ t.events[j].h = Other(h)}}
-    IN  b1 \cup b2 \cup b3 \cup b4 \cup b5 \cup b6 \cup b7 \cup b8
+                                                              /\ t.events[j].ev = "StreamOpen" /\ t.events[j].h = Other(h)
+                                                              /\ t.events[j].t > t.events[i].t + 400}}
+        b9 == {<<"C10", "trusted-although-unregistered", h>> : h \in {h \in {"A", "B"} : ~t.userReg[h] /\ ~t.shutDown[h] /\ t.hubs[h].trusted}}
+        b10 == IF (~t.userReg["A"] \/ ~t.userReg["B"]) /\ (good(A) \/ good(B))
+               THEN {<<"C10", "completed-although-not-registered-by-both-users">>} ELSE {}
+        b11 == {<<"C10", "connection-registered-at-a-hub-that-was-shut-down", h>> : h \in {h \in {"A", "B"} : t.shutDown[h] /\ t.hubs[h].registered}}
+        b12 == IF (t.shutDown["A"] \/ t.shutDown["B"]) /\ t.openStreams > 0 THEN {<<"C10", "stream-open-although-a-hub-was-shut-down", t.openStreams>>} ELSE {}
+    IN  b1 \cup b2 \cup b3 \cup b4 \cup b5 \cup b6 \cup b7 \cup b8 \cup b9 \cup b10 \cup b11 \cup b12
 Init == l = 0
 Next == /\ l < Len(Trace)
         /\ l' = l + 1
